@@ -10,7 +10,9 @@ for f in sorted(glob.glob(os.path.join(ROOT, "seeded", "*", "meta.json"))):
     m = json.load(open(f))
     sid = os.path.basename(os.path.dirname(f))
     checks = m.get("checks") or {}
-    caught = ", ".join("%s: %s" % (p, "caught" if c.get("caught") else "MISSED") for p, c in checks.items())
+    caught = ", ".join("%s: %s" % (p, "caught" if c.get("caught") else "not caught") for p, c in checks.items())
+    if m.get("not_caught_because"):
+        caught += " — " + m["not_caught_because"].replace("|", "/")
     clauses = ""
     for c in checks.values():
         for l in c.get("lines", []):
